@@ -110,6 +110,12 @@ class LadderNetworkMaker:
         if foo[-1] == []:
             foo = foo[0:-1]
 
+        # Not a ladder if some component has not been placed
+        used = set(e.cpt_name for p in foo for q in p for e in q)
+        for name, elt in self.cct.elements.items():
+            if elt.type not in ('W', 'O', 'P') and name not in used:
+                return None
+
         from lcapy.oneport import Ser, Par
         from lcapy.twoport import Ladder, LadderAlt
 
